@@ -20,6 +20,7 @@ OPS = {"+": operator.add, "-": operator.sub, "*": operator.mul, "/": operator.tr
 PREC = {"+": 1, "-": 1, "*": 2, "/": 2}
 STATS = [dict(min=-1.0, max=3.0, mean=0.5, std=2.0), dict(min=0.25, max=8.0, mean=1.5, std=0.5), dict(min=-4.0, max=-0.5, mean=-2.0, std=0.0)]
 LEAVES6 = ("2", "0.5", "mean", "min", "max", "std")
+LEAVES_NUM = ("1e3", "3.", "0.25", "2.5e-1", "10", "mean")
 LEAVES4 = ("2", "0.5", "mean", "std")
 
 META = dict(
@@ -376,7 +377,8 @@ def run_task(task, acc):
         _, which, c, nchunk = task
         if which == "d1":
             bd = trees(1, LEAVES6)
-            pool = bd[0] + bd[1]
+            bn = trees(1, LEAVES_NUM)
+            pool = bd[0] + bd[1] + [t for t in bn[0] + bn[1] if t not in bd[0] + bd[1]]
         elif which == "d2":
             pool = trees(2, LEAVES4)[2]
         elif which == "d2full":
